@@ -209,12 +209,24 @@ func (p *parser) parse(opts CharsetOptions) *Regexp {
 					p.scanOffset = start + i + 2
 				}
 				p.next()
-				stack = append(stack, &Regexp{op: literalOp(opts.ScanBytes), text: lit, offset: start})
+				if !opts.Fold || lit == "" {
+					stack = append(stack, &Regexp{op: literalOp(opts.ScanBytes), text: lit, offset: start})
+				}
 				for lit != "" {
 					r, size := utf8.DecodeRuneInString(lit)
 					if r == utf8.RuneError && size == 1 {
 						p.error("invalid rune", start, start+1)
 						return nil
+					}
+					if opts.Fold {
+						// Quoted text is still case-insensitive: one node per character.
+						re := &Regexp{op: literalOp(opts.ScanBytes), text: lit[:size], offset: start}
+						if foldable(r, opts) {
+							re = &Regexp{op: opCharClass, offset: start}
+							re.charset = append(re.charset0[:0], r, r)
+							re.charset.fold(opts.ScanBytes)
+						}
+						stack = append(stack, re)
 					}
 					lit = lit[size:]
 					start += size
